@@ -31,24 +31,9 @@ Qed.
 Lemma c14_civil_example : civil_from_days 19782 = (2024, 2, 29) /\ civil_from_days (-719468) = (0, 3, 1).
 Proof. split; vm_compute; reflexivity. Qed.
 
-Lemma c14_print_refuted : exists P R t, c14_rep P R /\ fits R t = true /\
-  tp_print P R t <> Ok (iso_text P (spec_datetime P t)).
-Proof.
-  exists Pd, I64, 9223372036854775807. split; [left; reflexivity|]. split; [reflexivity|].
-  destruct w_K35 as (H & _). rewrite H. discriminate.
-Qed.
-
-Lemma c14_parse_print_refuted : exists P R t, c14_rep P R /\ fits R t = true /\
-  ~ (exists text, tp_print P R t = Ok text /\ tp_parse P R text = Ok t).
-Proof.
-  exists Pd, I64, 9223372036854775807. split; [left; reflexivity|]. split; [reflexivity|].
-  intros (text & H & _). destruct w_K35 as (H' & _). rewrite H' in H. discriminate.
-Qed.
-
 Lemma c14_print_example :
-  rt_defect Pms I64 1689374691925 = false /\
   tp_print Pms I64 1689374691925 = Ok [50;48;50;51;45;48;55;45;49;52;84;50;50;58;52;52;58;53;49;46;57;50;53;90]%N.
-Proof. split; vm_compute; reflexivity. Qed.
+Proof. vm_compute; reflexivity. Qed.
 
 Lemma c14_print_repaired :
   tp_print Pns I64 (-9223372036854775808) = Ok text_K30 /\
@@ -163,7 +148,7 @@ Proof. repeat split; vm_compute; reflexivity. Qed.
 
 Lemma c15_date_steps : forall A y m d (K : Z -> outcome A),
   -30000000000000000 <= y <= 30000000000000000 -> 1 <= m <= 12 -> 1 <= d <= 31 ->
-  -9223372036854775808 <= days_from_civil y m d <= 9223372036854775807 - 719468 ->
+  -9223372036854775808 <= days_from_civil y m d <= 9223372036854775807 ->
   date_steps y m d K = K (days_from_civil y m d).
 Proof. intros A. exact (@date_steps_ok A). Qed.
 
@@ -188,12 +173,12 @@ Proof.
   intros (f & _ & E). destruct (render_last f) as (l & Hl). rewrite <- E in Hl. vm_compute in Hl. discriminate Hl.
 Qed.
 
-(* the parse half of K35: a documented text of a representable time_point<days,int64> is reported out of range *)
+(* K35b (repaired): the documented text of the last representable day of time_point<days,int64> is read *)
 Definition fields_K35 : tp_fields :=
   mkTF YPlus [50;53;50;53;50;55;51;52;57;50;55;55;54;56;53;50;52]%N [48;55]%N [50;55]%N [48;48]%N [48;48]%N [48;48]%N None.
 
-Lemma c15_tp_classify_k35 : tf_wf fields_K35 /\ k35_parse Pd I64 fields_K35 = true /\
-  tp_parse Pd I64 (tf_render fields_K35) = Err OutOfRange /\ tp_expected Pd I64 fields_K35 = Ok 9223372036854775807.
+Lemma c15_tp_classify_k35 : tf_wf fields_K35 /\ tf_render fields_K35 = text_K35 /\
+  tp_parse Pd I64 (tf_render fields_K35) = Ok 9223372036854775807 /\ tp_expected Pd I64 fields_K35 = Ok 9223372036854775807.
 Proof.
   split.
   - split.
@@ -201,7 +186,7 @@ Proof.
     + unfold valid_datetime, valid_date, fields_K35, tf_datetime, tf_yearv, tf_frac_ns.
       cbn [tf_sign tf_year tf_mo tf_d tf_h tf_mi tf_s tf_frac dt_y dt_mo dt_d dt_h dt_mi dt_s dt_ns].
       repeat split; vm_compute; intro H; discriminate H.
-  - repeat split; vm_compute; reflexivity.
+  - split; [|split]; vm_compute; reflexivity.
 Qed.
 
 (* ------------------------------------------------------------------ C15, classification of duration texts *)
